@@ -135,6 +135,21 @@ def gen_inputs(tier, rng):
     return descs
 
 
+def mutate_in_place(x):
+    """Change every nested container of x in place (top-level keys are left alone)."""
+    def walk(y, top):
+        if isinstance(y, dict):
+            for k in list(y):
+                walk(y[k], False)
+            if not top:
+                y["zz_mutated"] = 1
+        elif isinstance(y, list):
+            for e in y:
+                walk(e, False)
+            y.append("zz_mutated")
+    walk(x, True)
+
+
 def reorder(v, rng, tuples=False):
     if isinstance(v, dict):
         items = [(k, reorder(x, rng, tuples)) for k, x in v.items()]
@@ -180,8 +195,11 @@ def run_case(desc):
     file_val = None
     with scratch_dir("c01") as d:
         project = signac.init_project(path=d)
-        job = project.open_job(reorder(v, rng))
+        caller = reorder(v, rng)
+        job = project.open_job(caller)
         ids.append(job.id); spell["open_job"] = job.id
+        # the hashed value must not alias the caller's data: mutate every nested container in place
+        mutate_in_place(caller)
         ids.append(calc_id(dict(job.cached_statepoint))); spell["cached_statepoint"] = ids[-1]
         job.init()
         names = [n for n in os.listdir(project.workspace)]
@@ -210,6 +228,15 @@ def run_case(desc):
         others.append((o, calc_id(o)))
         if len(others) >= 6:
             break
+    # the same JSON-different variants opened through ONE project handle (ids must not depend on
+    # what was opened before)
+    with scratch_dir("c01b") as d2:
+        proj2 = signac.init_project(path=d2)
+        first = proj2.open_job(v).id
+        ids.append(first)
+        same_session = [(o, proj2.open_job(o).id) for o, _ in others]
+        ids.append(proj2.open_job(v).id)
+    others = others + same_session
     coq = ("{| c1_val := %s; c1_ftab := %s; c1_ids := %s; c1_file := %s; c1_others := %s |}" % (
         coq_json(v), coq_ftab([v, file_val] + [o for o, _ in others]),
         coq_list([coq_str(i) for i in ids], "str"), coq_json(file_val),
